@@ -391,7 +391,23 @@ func (c *ctx) stmt(fc *fileCtx, s ast.Stmt, fn fnCtx, res *Result) {
 			c.stmtList(fc, cl.Body, fn, res, false)
 		}
 	case *ast.SelectStmt:
-		c.unsupported(s, "select statement")
+		// A select with a default clause never blocks: the real statement is kept (its channel
+		// operations are part of the select and stay as they are), only the clause bodies are
+		// instrumented.  A blocking select cannot be owned by the simulator.
+		hasDefault := false
+		for _, cc := range s.Body.List {
+			if cl, ok := cc.(*ast.CommClause); ok && cl.Comm == nil {
+				hasDefault = true
+			}
+		}
+		if !hasDefault {
+			c.unsupported(s, "select statement without a default clause")
+			return
+		}
+		for _, cc := range s.Body.List {
+			cl := cc.(*ast.CommClause)
+			c.stmtList(fc, cl.Body, fn, res, false)
+		}
 	case *ast.GoStmt:
 		c.unsupported(s, "go statement")
 	case *ast.SendStmt:
